@@ -18,7 +18,7 @@ from vmon.libutil import monitored
 
 LEVEL = "exploration"
 SHARDS = {"quick": 16, "thorough": 16}
-MUST = ["schedules.cut_inside_header", "schedules.several_packets_per_delivery", "option.show_progress", "kind.bytes_subclass", "filemoved.read-all", "filemoved.seek-end", "filemoved.other-generator", "kind.bytes", "kind.file", "kind.socket", "kind.socketpair", "kind.realfile",
+MUST = ["bigstream.reads_on_packet_borders", "schedules.cut_inside_header", "schedules.several_packets_per_delivery", "option.show_progress", "kind.bytes_subclass", "filemoved.read-all", "filemoved.seek-end", "filemoved.other-generator", "kind.bytes", "kind.file", "kind.socket", "kind.socketpair", "kind.realfile",
         "bigstream.packets", "via_packet_generator", "filepos.written", "filepos.partly-read", "filepos.at-end", "filepos.parsed-once", "file.update_mode", "header.all-zero"]
 RULE = ("each case = (packet list, prefix length k, source kind, read size / recv schedule); the generator is stepped "
         "with next() under a step budget and the yielded sequence compared with the packet list. Enumerated "
@@ -352,17 +352,19 @@ def run(ctx):
             ctx.sample({"data_lens": dlens[:10], "k": k, "read_size": r, "stream_head": stream[:24]})
 
     # ---- 5. big stream across the 20 MB trim threshold -----------------------------------------------------
-    big_jobs = [("bytes", None), ("file", None), ("file", 1 << 20)]
+    big_jobs = [("bytes", None, False), ("file", None, False), ("file", 1 << 20, False), ("file", 65542, True)]
     if not ctx.quick:
-        big_jobs += [("file", 1 << 16), ("socket", 1 << 20), ("realfile", 1 << 18)]
-    for bi, (kind, r) in enumerate(big_jobs):
+        big_jobs += [("file", 1 << 16, False), ("socket", 1 << 20, False), ("realfile", 1 << 18, False), ("socket", 65542, True), ("file", 2 * 65542, True)]
+    for bi, (kind, r, uniform) in enumerate(big_jobs):
         if not ctx.mine(bi + 3):
             continue
-        big_stream(ctx, kind, r)
+        big_stream(ctx, kind, r, uniform)
 
 
-def big_stream(ctx, kind, r):
-    """21 MB: consumed offset must pass 20,000,000 so the trim branch is reached by construction."""
+def big_stream(ctx, kind, r, uniform=False):
+    """21 MB: consumed offset must pass 20,000,000 so the trim branch is reached by construction.
+    uniform: every packet has the maximum size and the read size / socket delivery is a whole number of packets, so that every
+    read ends exactly on a packet border (nothing is left unparsed when the buffer is trimmed)"""
     from space_packet_parser import packets as P
     import random
     rng = random.Random(4242)
@@ -370,7 +372,7 @@ def big_stream(ctx, kind, r):
     total = 0
     i = 0
     while total < 21_500_000:
-        dl = 65536 if i % 3 else rng.choice([1, 2, 100, 4091, 65535])
+        dl = 65536 if (i % 3 or uniform) else rng.choice([1, 2, 100, 4091, 65535])
         body = bytes([i & 0xFF, (i >> 8) & 0xFF]) + bytes([rng.getrandbits(8)]) * (dl - 2) if dl >= 2 else bytes([i & 0xFF])
         p = rng.getrandbits(32).to_bytes(4, "big") + (dl - 1).to_bytes(2, "big") + body
         pkts.append(p)
@@ -387,7 +389,7 @@ def big_stream(ctx, kind, r):
         os.close(fd)
         src = open(tmp, "rb")
     else:
-        src = sources.ScriptedSocket(sources.cut(stream, [1 << 20] * (len(stream) >> 20)))
+        src = sources.ScriptedSocket(sources.cut(stream, [65542] * len(pkts) if uniform else [1 << 20] * (len(stream) >> 20)))
     kw = {} if r is None else {"buffer_read_size_bytes": r}
     gen = P.ccsds_generator(src, **kw)
     n, bad, trim_seen, last_pos = 0, None, False, -1
@@ -411,9 +413,11 @@ def big_stream(ctx, kind, r):
     ctx.count(f"kind.{'file' if kind == 'realfile' else kind}")
     ctx.count("bigstream.packets", n)
     offset = sum(len(p) for p in pkts[:n])
-    wit = {"kind": kind, "read_size": r, "n_packets": len(pkts), "stream_len": len(stream)}
+    wit = {"kind": kind, "read_size": r, "n_packets": len(pkts), "stream_len": len(stream), "reads_end_on_packet_borders": uniform}
+    if uniform:
+        ctx.count("bigstream.reads_on_packet_borders")
     if bad:
-        ctx.violation(f"bigstream/{kind}/{'past20MB' if offset > 19_900_000 else 'before20MB'}",
+        ctx.violation(f"bigstream/{kind}/{'past20MB' if offset > 19_900_000 else 'before20MB'}{'/reads-on-packet-borders' if uniform else ''}",
                       f"packet {bad[0]} at stream offset {offset}: {bad[1]}", dict(wit, index=bad[0], offset=offset))
     elif kind != "socket":
         s = monitored(next, gen)
